@@ -828,6 +828,26 @@ def rule_r5(chk, prog):
                           'reaches the scanner', loc=cm.loc(c),
                           nontrivial=True)
                 continue
+            if isinstance(a, ast.Call) and isinstance(
+                    a.func, ast.Attribute) and a.func.attr in (
+                        'read_text', 'read_bytes'):
+                # pathlib: read_text() opens in text mode with universal
+                # newline translation (a newline= argument exists only from
+                # Python 3.13 on); read_bytes() hands over bytes
+                nl = kw(a, 'newline')
+                ok = a.func.attr == 'read_text' and isinstance(
+                    nl, ast.Constant) and nl.value == ''
+                chk.check('C08.R5', wh, a, ok,
+                          'the input file is read with '
+                          f'{a.func.attr}(), i.e. in text mode '
+                          'with universal newline translation: CR LF (and '
+                          'CR) inside string literals, quoted symbols and '
+                          'comments reach the scanner as LF, the token text '
+                          'differs from the lexeme in the file'
+                          if a.func.attr == 'read_text' else
+                          'the scanner is handed bytes, not text',
+                          loc=cm.loc(a), nontrivial=True)
+                continue
             if not (isinstance(a, ast.Call) and isinstance(
                     a.func, ast.Attribute) and a.func.attr == 'read'
                     and not a.args):
@@ -876,6 +896,59 @@ def rule_r5(chk, prog):
                           'differs from the lexeme in the file',
                           loc=cm.loc(o), nontrivial=True)
     chk.floor('C08.R5', 'call sites of parse_smtlib', ncall, 2)
+
+
+SMTLIB_DELIMS = set(' \t\n\r();"|')
+
+
+def rule_r9(chk, prog):
+    chk.rule('C08.R9', 'lexing decisions depend only on the characters '
+             'SMT-LIB 2.6 gives a lexical role: white space, parentheses, '
+             '";", \'"\' and "|" - every character constant the scanner '
+             'compares with (==, !=, in, find/index/startswith) is one of '
+             'them; in particular a backslash has no escape role')
+    m = prog.mod('nodeio')
+    f = m.func('parse_smtlib')
+    where = 'nodeio.parse_smtlib'
+    n = 0
+
+    def consts(e):
+        if isinstance(e, ast.Constant) and isinstance(e.value, str):
+            yield e
+        elif isinstance(e, (ast.Tuple, ast.List, ast.Set)):
+            for x in e.elts:
+                yield from consts(x)
+        elif isinstance(e, ast.Name) and len(m.globals.get(e.id, [])) == 1:
+            yield from consts(m.globals[e.id][0])
+        elif isinstance(e, ast.Call) and call_name(e) in (
+                'frozenset', 'set', 'tuple') and e.args:
+            yield from consts(e.args[0])
+
+    sites = []
+    for x in walk_no_nested(f):
+        if isinstance(x, ast.Compare):
+            for o in [x.left] + list(x.comparators):
+                for c in consts(o):
+                    sites.append((x, c))
+        elif isinstance(x, ast.Call) and isinstance(
+                x.func, ast.Attribute) and x.func.attr in (
+                    'find', 'index', 'rfind', 'startswith', 'endswith',
+                    'count', 'partition', 'split') and x.args:
+            for c in consts(x.args[0]):
+                sites.append((x, c))
+    for (x, c) in sites:
+        if c.value == '':
+            continue
+        n += 1
+        extra = sorted(set(c.value) - SMTLIB_DELIMS)
+        chk.check('C08.R9', where, x, not extra,
+                  f'"{unparse(x)[:70]}" makes a lexing decision depend on '
+                  f'{extra!r}, which has no lexical role in SMT-LIB 2.6 '
+                  '(a string literal ends at the first quote that is not '
+                  'doubled, a quoted symbol at the next "|"): lexemes '
+                  'containing it are cut differently from the standard',
+                  loc=m.loc(x), nontrivial=True)
+    chk.floor('C08.R9', 'character constants in scanner tests', n, 8)
 
 
 def rule_r7(chk, prog):
@@ -1091,6 +1164,7 @@ def run(tier):
     chk.guard(rule_r5, chk, prog)
     chk.guard(rule_r7, chk, prog)
     chk.guard(rule_r8, chk, prog)
+    chk.guard(rule_r9, chk, prog)
     tab = chk.guard(extract_table, chk, prog)
     if tab is not None:
         m, f, cfg, ex, top, states, table = tab
